@@ -727,6 +727,8 @@ render(vbi_page *pg, int row)
 {
 	vbi_event event;
 
+	VERIF_REGION("cc.pages", 1);
+
 	if (row < 0 || pg->dirty.roll) {
 		/* no particular row or not fetched
 		   since last roll/clear, redraw all */
@@ -749,6 +751,8 @@ clear(vbi_page *pg)
 {
 	vbi_event event;
 
+	VERIF_REGION("cc.pages", 1);
+
 	pg->dirty.y0 = 0;
 	pg->dirty.y1 = ROWS - 1;
 	pg->dirty.roll = -ROWS;
@@ -763,6 +767,8 @@ static void
 roll_up(vbi_page *pg, int first_row, int last_row)
 {
 	vbi_event event;
+
+	VERIF_REGION("cc.pages", 1);
 
 	if (pg->dirty.roll != 0 || pg->dirty.y0 <= pg->dirty.y1) {
 		/* not fetched since last update, redraw all */
@@ -794,6 +800,8 @@ static void
 word_break(struct caption *cc, cc_channel *ch, int upd)
 {
 	cc = cc;
+
+	VERIF_REGION("cc.pages", 1);
 
 	/*
 	 *  Add a leading and trailing space.
@@ -848,6 +856,8 @@ put_char(struct caption *cc, cc_channel *ch, vbi_char c)
 	/* c.foreground = rand() & 7; */
 	/* c.background = rand() & 7; */
 
+	VERIF_REGION("cc.pages", 1);
+
 	if (ch->col < COLUMNS - 1)
 		ch->line[ch->col++] = c;
 	else {
@@ -885,6 +895,8 @@ erase_memory(struct caption *cc, cc_channel *ch, int page)
 	vbi_char c = cc->transp_space[ch >= &cc->channel[4]];
 	int i;
 
+	VERIF_REGION("cc.pages", 1);
+
 	for (i = 0; i < COLUMNS * ROWS; acp++, i++)
 		*acp = c;
 
@@ -914,6 +926,8 @@ caption_command(vbi_decoder *vbi, struct caption *cc,
 	cc_channel *ch;
 	int chan, col, i;
 	int last_row;
+
+	VERIF_REGION("cc.pages", 1);
 
 	chan = (cc->curr_chan & 4) + field2 * 2 + ((c1 >> 3) & 1);
 	ch = &cc->channel[chan];
@@ -1437,6 +1451,8 @@ vbi_caption_channel_switched(vbi_decoder *vbi)
 	cc_channel *ch;
 	int i;
 
+	VERIF_REGION("cc.pages", 1);
+
 	for (i = 0; i < 9; i++) {
 		ch = &cc->channel[i];
 
@@ -1611,6 +1627,8 @@ vbi_fetch_cc_page(vbi_decoder *vbi, vbi_page *pg, vbi_pgno pgno, vbi_bool reset)
 		return FALSE;
 
 	pthread_mutex_lock(&vbi->cc.mutex);
+
+	VERIF_REGION("cc.pages", 1); /* reads the page, resets its dirty fields */
 
 	spg = ch->pg + (ch->hidden ^ 1);
 
